@@ -211,6 +211,42 @@ def handle : Drv.Handler
     let done := g.props.isEmpty || ib.isEmpty
     let props := g.props.zipIdx.map fun ((e, _), i) => s!"({expStr e} p{i} none)"
     pure s!"({Drv.bstr done} {ib.length} {uniq} 0 ({" ".intercalate props}))"
+  -- oracle: a path as the implementation shows it, `(s a s a … s)` (as_svg of a rebuilt path, Path::from_actions …), is an
+  -- EXECUTION of the model: starts in an initial state, every action is offered by the state it leaves, is not ignored, and
+  -- leads to the next state (C19_fp_roundtrip / C19_encode_roundtrip: `IsExec`)
+  | "o-exec", [g, path] => do
+    let g ← graph? g; let l ← path.nats?
+    let M := g.toSys
+    let rec go : Nat → List Nat → Option String
+      | _, [] => none
+      | s, a :: t :: r =>
+        if !(M.acts s).contains a then some s!"action-{a}-not-offered-in-state-{s}"
+        else if M.next s a != some t then some s!"action-{a}-of-state-{s}-does-not-lead-to-{t}"
+        else go t r
+      | _, [_] => some "path-ends-with-an-action"
+    pure (match l with
+      | [] => "empty-path"
+      | s0 :: r => if !M.init.contains s0 then s!"first-state-{s0}-is-not-initial" else (go s0 r).getD "ok")
+  -- oracle: Path::from_actions(init, acts) = `res` (none | path): Some exactly when the actions denote an execution from
+  -- an initial state, and then that execution with exactly those actions (C19_actions_roundtrip + soundness)
+  | "o-fromacts", [g, s0, acts, res] => do
+    let g ← graph? g; let s0 ← s0.nat?; let acts ← acts.nats?
+    let M := g.toSys
+    let rec walk : Nat → List Nat → Option (List Nat)
+      | s, [] => some [s]
+      | s, a :: r => if (M.acts s).contains a then
+          match M.next s a with
+          | some t => (walk t r).map fun p => s :: a :: p
+          | none => none
+        else none
+    let want := if M.init.contains s0 then walk s0 acts else none
+    pure (match res, want with
+      | .atom "none", none => "ok"
+      | .atom "none", some _ => "actions-denote-an-execution-but-none-returned"
+      | r, none => if r == .atom "panic" then "panicked" else "no-such-execution-but-a-path-returned"
+      | r, some w => match r.nats? with
+        | some l => if l == w then "ok" else "returned-path-is-not-the-execution-of-the-actions"
+        | none => "unreadable-result")
   -- oracle: the Explorer's answer for a url. `res` = 404-parse | 404-nostate | ((label x)|(label state)|(i state) ...)
   | "o-view", [g, fps, url, mode, res] => do
     let g ← graph? g; let fps ← fps.nats?; let url ← url? url
